@@ -9,6 +9,9 @@ Streams
   import     random simple pyzx graphs built directly with pyzx -> `from_pyzx`; model comparison;
              oracle: matrix * graph.scalar == tensorfy(graph)
   refusal    graphs with undeclared / shared boundary vertices must be refused (ValueError)
+  state      every `from_pyzx(g)` is run twice on the same graph object with the graph serialised
+             before and after (import must not change the caller's graph; the second import must
+             return the same diagram); every diagram is exported twice (same graph, diagram unchanged)
 
 The installed pyzx 0.10.6 no longer has the Graph API the pinned discopy was written against; the
 property's `observe_at` allows an in-process adapter (class `CompatGraph`, see its docstring for the
@@ -535,6 +538,42 @@ def attempt(fn, graph):
         return None, exc
 
 
+def import_observed(rep, case, stream, graph):
+    """`Diagram.from_pyzx(graph)` run TWICE on the same graph object, with the graph serialised
+    (vertices, types, phases, positions, typed edges, inputs, outputs, scalar) before and after
+    each call.  Importing must not change the caller's graph, and importing the same graph again
+    must give the same diagram (state carried between calls — e.g. a scan that aliases
+    `graph.inputs` and is reordered in place — shows up here and nowhere else: the first diagram
+    can be right while the graph is silently corrupted).  Returns the first call's (diagram, exc)."""
+    from discopy.quantum import zx
+    before = ser_graph(graph)
+    d2, exc = attempt(zx.Diagram.from_pyzx, graph)
+    first = "err " + err_class(exc) if exc else "ok " + ser_zx_diagram(d2)
+    after = ser_graph(graph)
+    if after != before:
+        rep.count(stream + "_graph_mutated")
+        rep.fail("from_pyzx_mutates_graph:" + stream, dict(case, graph_before=before[:600],
+                                                            graph_after=after[:600]),
+                 "from_pyzx changed the graph it was given (first difference at token %d): the graph "
+                 "no longer denotes what it denoted; returned %s" % (
+                     next((i for i, (a, b) in enumerate(zip(before.split(), after.split()))
+                           if a != b), -1), first[:200]))
+    d2b, excb = attempt(zx.Diagram.from_pyzx, graph)
+    second = "err " + err_class(excb) if excb else "ok " + ser_zx_diagram(d2b)
+    if second != first:
+        rep.count(stream + "_second_import_differs")
+        rep.fail("from_pyzx_not_repeatable:" + stream, dict(case, first=first[:600],
+                                                             second=second[:600]),
+                 "importing the same graph object a second time gives a different result: "
+                 "first %s, then %s" % (str(d2)[:200] if exc is None else first,
+                                        str(d2b)[:200] if excb is None else second))
+    elif ser_graph(graph) != before:
+        rep.fail("from_pyzx_mutates_graph:" + stream + "_second_call", case,
+                 "the second from_pyzx call changed the graph")
+    rep.count(stream + "_imported_twice")
+    return d2, exc
+
+
 def attribute(variants, graph, n_in, n_out, want, factor=1):
     """Which of the proposed patches make the property hold on this graph."""
     ok = {}
@@ -559,7 +598,8 @@ def run(tier, seed, replay=None):
                 "(0-3 inputs, 0-3 outputs, 0-5 spiders, 35% Hadamard edges, 30% with shuffled vertex "
                 "ids) built with pyzx itself; non-trivial = at least two boxes one of which is a "
                 "spider with >= 2 legs (diagrams) / at least two spiders or a Hadamard edge (graphs); "
-                "distinct by token form")
+                "distinct by token form; every import is repeated on the same graph object and the "
+                "graph compared before/after, every export is repeated")
     rep.partial = [
         "meaning clauses (tensorfy(exported graph) = matrix of the diagram; imported diagram "
         "denotes the graph) rest on pyzx.tensorfy and the harness evaluator through the oracle "
@@ -630,10 +670,23 @@ def run(tier, seed, replay=None):
                 rep.case("diagram " + tok, nontrivial)
                 rep.sample(dict(stream="export", diagram=str(d)[:200]))
                 # export: correspondence
+                d_before = ser_zx_diagram(d)
                 g, exc = attempt(lambda x: x.to_pyzx(), d)
                 real = "err " + err_class(exc) if exc else "ok " + ser_graph(g) + " simple 1"
                 if real != m_exp:
                     rep.disagree("export", case, real, m_exp)
+                # exporting must neither change the diagram nor depend on earlier exports
+                g_again, exc_again = attempt(lambda x: x.to_pyzx(), d)
+                real_again = "err " + err_class(exc_again) if exc_again else \
+                    "ok " + ser_graph(g_again) + " simple 1"
+                if real_again != real or g_again is g and g is not None:
+                    rep.fail("to_pyzx_not_repeatable", dict(case, first=real[:600],
+                                                            second=real_again[:600]),
+                             "exporting the same diagram twice gives different graphs (or the "
+                             "same graph object)")
+                if ser_zx_diagram(d) != d_before:
+                    rep.fail("to_pyzx_mutates_diagram", case, "to_pyzx changed the diagram")
+                rep.count("exported_twice")
                 if exc is not None:
                     rep.fail("to_pyzx_raises:" + err_class(exc), case, repr(exc))
                     continue
@@ -657,7 +710,7 @@ def run(tier, seed, replay=None):
                 # round trip: correspondence (tree and patched) and oracle
                 stripped = [b for b in boxes if b["k"] != "C"]
                 want_rt = evaluate(dom, stripped)
-                d2, exc = attempt(zx.Diagram.from_pyzx, g)
+                d2, exc = import_observed(rep, case, "roundtrip", g)
                 real = "err " + err_class(exc) if exc else "ok " + ser_zx_diagram(d2)
                 if real != m_rt:
                     rep.disagree("roundtrip", case, real, m_rt)
@@ -698,7 +751,10 @@ def run(tier, seed, replay=None):
                 cg = to_compat(g, CompatGraph)
                 want = pyzx.tensorfy(g, strategy="naive")
                 factor = g.scalar.to_number()
-                d2, exc = attempt(zx.Diagram.from_pyzx, cg)
+                d2, exc = import_observed(rep, case, "import", cg)
+                if ser_graph(cg) != ser_graph(g):
+                    rep.fail("from_pyzx_mutates_graph:import_vs_original", case,
+                             "after from_pyzx the graph differs from the pyzx graph it was copied from")
                 real = "err " + err_class(exc) if exc else "ok " + ser_zx_diagram(d2)
                 if real != m_imp:
                     rep.disagree("import", case, real, m_imp)
@@ -743,7 +799,7 @@ def run(tier, seed, replay=None):
                     else:
                         continue
                 tok = tok_graph(g, order)
-                d2, exc = attempt(zx.Diagram.from_pyzx, g)
+                d2, exc = import_observed(rep, dict(mode=mode, graph=tok), "refusal", g)
                 lines.append("zx_import " + TREE_FIX + " " + tok)
                 reals.append("err " + err_class(exc) if exc else "ok " + ser_zx_diagram(d2))
                 cases.append((mode, tok, exc, d2))
